@@ -907,3 +907,74 @@ impl<'a> AllVrpMetrics<'a> {
     }
 }
 
+
+//------------ Verification hooks --------------------------------------------
+
+/// Exposure hooks for the external verification harness (add-only).
+///
+/// They build the report's private input data (`PubPoint`s and rejected
+/// resources) from plain values through the very functions the
+/// `PubPointProcessor` uses and expose `RejectedResources::keep_prefix`.
+#[cfg(routinator_verif)]
+impl ValidationReport {
+    /// Builds a publication point from plain data and commits it.
+    ///
+    /// ROAs go through `PubPoint::add_roa` with the report’s configured
+    /// prefix length limits, router keys through `PubPoint::add_router_key`,
+    /// ASPAs are stored as `PubPoint::add_aspa` stores them. The point is
+    /// pushed like `PubPointProcessor::commit` does.
+    pub fn verif_push_point(
+        &self,
+        tal_index: usize,
+        refresh: Time,
+        roas: Vec<RouteOriginAttestation>,
+        router_keys: Vec<(AsBlocks, KeyIdentifier, RouterKeyInfo)>,
+        aspas: Vec<(Asn, SmallAsnSet)>,
+        info: Arc<PublishInfo>,
+    ) {
+        let mut point = PubPoint::new(refresh, tal_index);
+        for roa in roas {
+            point.add_roa(
+                roa, info.clone(), self.limit_v4_len, self.limit_v6_len
+            );
+        }
+        for (asns, key_id, key_info) in router_keys {
+            point.add_router_key(asns, key_id, key_info, info.clone());
+        }
+        for (customer, providers) in aspas {
+            point.aspas.push(
+                PubAspa { customer, providers, info: info.clone() }
+            );
+        }
+        if !point.is_empty() {
+            self.pub_points.push(point);
+        }
+    }
+
+    /// Marks address blocks as rejected.
+    ///
+    /// Does what `RejectedResourcesBuilder::extend_from_cert` does for the
+    /// IPv4 and IPv6 resources of a CA certificate.
+    pub fn verif_reject(&self, v4: Vec<IpBlock>, v6: Vec<IpBlock>) {
+        for block in v4.into_iter().filter(|block| !block.is_slash_zero()) {
+            self.rejected.addrs.push((true, block));
+        }
+        for block in v6.into_iter().filter(|block| !block.is_slash_zero()) {
+            self.rejected.addrs.push((false, block));
+        }
+    }
+
+    /// Finalizes the rejected resources and applies `keep_prefix`.
+    pub fn verif_keep_prefixes(self, prefixes: &[Prefix]) -> Vec<bool> {
+        let rejected = self.rejected.finalize();
+        prefixes.iter().map(|prefix| rejected.keep_prefix(*prefix)).collect()
+    }
+
+    /// The configured feature toggles and limits as the report holds them.
+    pub fn verif_config(&self) -> (bool, bool, Option<u8>, Option<u8>) {
+        (
+            self.enable_bgpsec, self.enable_aspa,
+            self.limit_v4_len, self.limit_v6_len
+        )
+    }
+}
